@@ -48,7 +48,8 @@ package parquet
 //@ func writeLevels
 //@   requires 1 <= width && width <= 4 && isWC(w)
 //@   requires[C13] live(asBB(asWC(w).w).B)
-//@   modifies asWC(w), asBB(asWC(w).w), HA(asBB(asWC(w).w).B)
+//@   modifies asWC(w), asBB(asWC(w).w), HA(asBB(asWC(w).w).B), lvlW, lvlWPrev
+//@   ghost-exit lvlWPrev := old(lvlW) ; lvlW := width
 //@   ensures err == nil && asWC(w).w == old(asWC(w).w) && sameOrFresh(asBB(asWC(w).w).B)
 //@   ensures[C02] asWC(w).n >= old(asWC(w).n) && #asBB(asWC(w).w).B - old(#asBB(asWC(w).w).B) == asWC(w).n - old(asWC(w).n)
 //@   ensures[C09] err == nil ==> (wfault ==> old(wfault))
@@ -99,6 +100,7 @@ package parquet
 // the header that reaches the sink states the sizes and the count it was given; the chunk grows by header + page
 // C12: the statistics in the header are the accumulator's, unaltered
 //@   ensures[C12] err == nil ==> hdrMin == lastMin && hdrMax == lastMax && hdrNull == lastNull
+//@   ensures lvlW == old(lvlW) && lvlWPrev == old(lvlWPrev)
 //@   ensures[C02] snkPos >= old(snkPos) && snkKept(old(snkPos))
 //@   ensures[C02] err == nil ==> snkPos == old(snkPos) + hdrLen && hdrLen >= 0
 //@   ensures[C02] err == nil && i32(dataLen) && i32(compressedLen) && i32(count) ==> hdrComp == compressedLen && hdrUncomp == dataLen && hdrNV == count
@@ -129,6 +131,9 @@ package parquet
 // one page: header then payload; the value count is the number of definition levels
 //@   requires[C02] count == #f.Defs
 //@   ensures[C02] snkPos >= old(snkPos) && snkKept(old(snkPos))
+// each level section is encoded with the number of bits of its own maximum level (definition
+// levels last; repetition levels, when the column has them, just before)
+//@   ensures[C02] err == nil ==> lvlW == bitsLen(f.MaxLevels.Def) && (f.repeated ==> lvlWPrev == bitsLen(f.MaxLevels.Rep))
 //@   ensures[C02] err == nil ==> snkPos >= old(snkPos) + hdrLen && #meta.rowGroups >= 1 && lastCols(meta) == old(lastCols(meta))
 //@   ensures[C02] err == nil ==> cComp(lastCols(meta), colKey(f.pth)) == old(cComp(lastCols(meta), colKey(f.pth))) + snkPos - old(snkPos) && cNV(lastCols(meta), colKey(f.pth)) == old(cNV(lastCols(meta), colKey(f.pth))) + #f.Defs
 //@   ensures[C02] err == nil ==> cUncomp(lastCols(meta), colKey(f.pth)) - old(cUncomp(lastCols(meta), colKey(f.pth))) - hdrLen >= #vals
